@@ -916,6 +916,14 @@ def aware(d):
     return ['dt', d['w'], d['o'] or 0]
 
 
+def show_in(d):
+    """an input leaf as the host object it is"""
+    iso = (MIN + pdt.timedelta(microseconds=d['w'])).isoformat()
+    if d['o'] is None:
+        return 'host datetime(%s) without zone%s' % (iso, ', fold=1' if d['fold'] else '')
+    return 'host datetime(%s, %s offset %s%s)' % (iso, d['fl'], mk_ts(d['o']), ', fold=1' if d['fold'] else '')
+
+
 def law_roundtrip_s(case):
     """datetime(s, o).timestamp = s"""
     s, o = case['s'], case['o']
@@ -941,17 +949,17 @@ def law_roundtrip_d(case):
     i = inst(d)
     r = ev('datetime($d.timestamp, $d.offset)', d=host(d))
     if not 0 <= i < MAXWALL:
-        return None if r[0] == 'err' else 'instant of %s out of range but round trip gave %r' % (show(aware(d)), r)
+        return None if r[0] == 'err' else 'instant of %s out of range but round trip gave %r' % (show_in(d), r)
     ts = (i - EPOCH) / US
     tol = 0 if abs(ts) < 2 ** 32 else int(math.ulp(ts) * US) + 1
     if r[0] == 'err' and tol and not (tol <= i < MAXWALL - tol and tol <= d['w'] < MAXWALL - tol):
         return None     # rounding may push a boundary value out of range
     if r[0] != 'dt' or r[2] != (d['o'] or 0) or abs(r[1] - d['w']) > tol:
-        return 'datetime(d.timestamp, d.offset) for d = %s gives %s (tolerance %d us)' % (show(aware(d)), show(r), tol)
+        return 'datetime(d.timestamp, d.offset) for d = %s gives %s (tolerance %d us)' % (show_in(d), show(r), tol)
     if tol == 0:
         e = ev('datetime($d.timestamp, $d.offset) = $d', d=host(d))
         if e != ['b', True]:
-            return 'datetime(d.timestamp, d.offset) = d is %r for d = %s' % (e, show(aware(d)))
+            return 'datetime(d.timestamp, d.offset) = d is %r for d = %s' % (e, show_in(d))
     return None
 
 
@@ -962,14 +970,14 @@ def law_utc(case):
     r = ev('$d.utc', d=host(d))
     if not 0 <= i < MAXWALL:
         return None if r[0] == 'err' else 'instant of %s is outside year 1..9999 but .utc gave %s' % (
-            show(aware(d)), show(r))
+            show_in(d), show(r))
     if r != ['dt', i, 0]:
-        return '%s .utc = %s, expected the instant %s at offset zero' % (show(aware(d)), show(r), show(['dt', i, 0]))
+        return '%s .utc = %s, expected the instant %s at offset zero' % (show_in(d), show(r), show(['dt', i, 0]))
     for text, want in (('$d.utc = $d', ['b', True]), ('$d.utc != $d', ['b', False]), ('$d.utc.offset', ['ts', 0]),
                        ('$d.utc - $d', ['ts', 0]), ('$d.utc <= $d and $d.utc >= $d', ['b', True])):
         g = ev(text, d=host(d))
         if g != want:
-            return '%s is %s for d = %s' % (text, show(g), show(aware(d)))
+            return '%s is %s for d = %s' % (text, show(g), show_in(d))
     return None
 
 
@@ -981,34 +989,34 @@ def law_add_sub(case):
         for text in ('($d + $t) - $t', '($t + $d) - $t'):
             r = ev(text, d=host(d), t=mk_ts(t))
             if r != aware(d):
-                return '%s = %s for d = %s, t = %d us' % (text, show(r), show(aware(d)), t)
+                return '%s = %s for d = %s, t = %d us' % (text, show(r), show_in(d), t)
         r = ev('($d + $t) - $d', d=host(d), t=mk_ts(t))
         if r != ['ts', t]:
-            return '(d + t) - d = %s for d = %s, t = %d us' % (show(r), show(aware(d)), t)
+            return '(d + t) - d = %s for d = %s, t = %d us' % (show(r), show_in(d), t)
         r = ev('($d + $t) - $t = $d', d=host(d), t=mk_ts(t))
         if r != ['b', True]:
-            return '(d + t) - t = d is %r for d = %s, t = %d us' % (r, show(aware(d)), t)
+            return '(d + t) - t = d is %r for d = %s, t = %d us' % (r, show_in(d), t)
         r = ev('($d - $t) + $t', d=host(d), t=mk_ts(t))
         if 0 <= d['w'] - t < MAXWALL and r != aware(d):
-            return '(d - t) + t = %s for d = %s, t = %d us' % (show(r), show(aware(d)), t)
+            return '(d - t) + t = %s for d = %s, t = %d us' % (show(r), show_in(d), t)
     else:
         r = ev('$d + $t', d=host(d), t=mk_ts(t))
         if r[0] != 'err':
-            return 'd + t leaves year 1..9999 but gave %s for d = %s, t = %d us' % (show(r), show(aware(d)), t)
+            return 'd + t leaves year 1..9999 but gave %s for d = %s, t = %d us' % (show(r), show_in(d), t)
     r = ev('$b - ($b - $a)', a=host(d), b=host(d2))
     w = d2['w'] - (inst(d2) - inst(d))
     if 0 <= w < MAXWALL:
         if r != ['dt', w, d2['o'] or 0]:
-            return 'd2 - (d2 - d1) = %s for d1 = %s, d2 = %s' % (show(r), show(aware(d)), show(aware(d2)))
+            return 'd2 - (d2 - d1) = %s for d1 = %s, d2 = %s' % (show(r), show_in(d), show_in(d2))
         r = ev('$b - ($b - $a) = $a', a=host(d), b=host(d2))
         if r != ['b', True]:
-            return 'd2 - (d2 - d1) = d1 is %r for d1 = %s, d2 = %s' % (r, show(aware(d)), show(aware(d2)))
+            return 'd2 - (d2 - d1) = d1 is %r for d1 = %s, d2 = %s' % (r, show_in(d), show_in(d2))
     elif r[0] != 'err':
         return 'd2 - (d2 - d1) leaves year 1..9999 but gave %s' % show(r)
     r = ev('$b - $a', a=host(d), b=host(d2))
     if r != ['ts', inst(d2) - inst(d)]:
         return 'd2 - d1 = %s, the instants differ by %d us (d1 = %s, d2 = %s)' % (
-            show(r), inst(d2) - inst(d), show(aware(d)), show(aware(d2)))
+            show(r), inst(d2) - inst(d), show_in(d), show_in(d2))
     return None
 
 
@@ -1020,7 +1028,7 @@ def law_compare(case):
     for op, w in want.items():
         r = ev('$a %s $b' % op, a=host(a), b=host(b))
         if r != ['b', w]:
-            return 'a %s b is %r, the instants say %r (a = %s, b = %s)' % (op, r[1], w, show(aware(a)), show(aware(b)))
+            return 'a %s b is %r, the instants say %r (a = %s, b = %s)' % (op, r[1], w, show_in(a), show_in(b))
     return None
 
 
@@ -1088,7 +1096,7 @@ def law_naive(case):
             if rs[0] != rs[1]:
                 return '%s with d = %s without zone gives %s, tagged UTC (%s) gives %s (e = %s, t = %d us)' % (
                     text, (MIN + pdt.timedelta(microseconds=d['w'])).isoformat(), rs[0], flavour, rs[1],
-                    show(aware(e)), t)
+                    show_in(e), t)
     return None
 
 
